@@ -252,11 +252,13 @@ func runC18(c *Ctx) {
 	c.Fields(r4, rlm+"onLeave", "on_leave publication", "wamp.Publish", notTestament, map[string]string{"Topic": `^"wamp\.session\.on_leave"$`}, 1)
 	c.Reach(r4, rlm+"onJoin", "session joins the table before on_join is published", ReachSpec{Stop: `^send:%r\.actionChan<-closure:router\.\(\*realm\)\.onJoin\$1$`, Target: `^send:call:invoke:wamp\.Peer\.Send\[%r\.metaPeer\]`, Want: false})
 	ruleLocalCopies(c, r4) // each subscription's meta event is built for that subscription; local subscribers get their own
-	c.R.Floor(r4, 38)
+	ruleSessionDetailsOrder(c, r4) // the session id and identity the session meta API reports are the router's and the authenticator's
+	c.R.Floor(r4, 40)
 
 	const r6 = "C18.R6 lookup tables stay consistent with the match policy (lookup/match answer what routing uses)"
 	ruleBrokerTables(c, r6)
-	c.R.Floor(r6, 12)
+	ruleMatchPredicates(c, r6) // meta events reach subscribers under the same match code as events
+	c.R.Floor(r6, 20)
 	const r7 = "C18.R7 an ineffective UNSUBSCRIBE announces nothing"
 	ruleUnsubscribeMember(c, r7)
 	c.R.Floor(r7, 14)
@@ -294,6 +296,7 @@ func runC18(c *Ctx) {
 	for _, f := range []string{rlm + "sessionCount$2", rlm + "sessionList$2"} {
 		c.Has(r5, f, "count and list use the same authrole filter", `^call:slices\.Contains\(\^filter, call:wamp\.AsString\(range\(\^r\.clients\)#v\.Details\["authrole"\]\)#0\)$`, 1)
 	}
+	ruleTestamentBuckets(c, r5)
 	ruleShutdownFlag(c, r5) // a kill is never mistaken for realm shutdown (which would skip on_leave, testaments and removal)
 	c.R.Floor(r5, 17)
 }
